@@ -248,34 +248,36 @@ def rule_port(ctx):
 
 
 def rule_public(ctx):
+    # decided per return path and up to propositional equivalence: which branch is tested first, early return or else,
+    # `not (a or b)` or `not a and not b` make no difference
+    from .. import paths as P
     f = ctx.func('peer', 'Peer.is_public')
-    rets = [r for r in f.own_nodes() if isinstance(r, ast.Return)]
-    ok = len(rets) == 2
-    ip_branch = name_branch = False
-    ipn = {s.targets[0].id for s in f.own_nodes() if isinstance(s, ast.Assign) and isinstance(s.targets[0], ast.Name) and norm(s.value) == 'self.ip_address'} | {'self.ip_address'}
-    for r in rets:
-        conj = {norm(x) for x in pr.conjuncts(r.value)}
-        conds = pr.control_conditions(r, f.node)
-        on_ip = any(b and norm(t) in ipn for t, b, _p in conds)
+    ip_branch = name_branch = None
+    for pth in P.returns(f.node):
+        on_ip = P.truthy(pth, 'self.ip_address')
+        if on_ip is None:
+            ip_branch = name_branch = False
+            break
         if on_ip:
-            ip_branch = 'self.is_valid' in conj and any(f'not {i}.is_private' in conj for i in ipn)
+            ip_branch = (ip_branch is not False) and q.bool_equiv(pth.value, 'self.is_valid and not self.ip_address.is_private')
         else:
-            name_branch = 'self.is_valid' in conj and "self.host != 'localhost'" in conj
-    ctx.check(ok and ip_branch and name_branch, 'C19.PUBLIC', ctx.key(f, None, 'both branches'),
+            name_branch = (name_branch is not False) and q.bool_equiv(pth.value, "self.is_valid and self.host != 'localhost'")
+    ctx.check(bool(ip_branch) and bool(name_branch), 'C19.PUBLIC', ctx.key(f, None, 'both branches'),
               'an IP host is public iff valid and not private; a named host iff valid and not localhost',
               f'is_public does not require validity plus not-private (IP: {ip_branch}) / not-localhost (name: {name_branch})', loc=ctx.loc(f, f.node))
     g = ctx.func('peer', 'Peer.is_valid')
-    rets = [r for r in g.own_nodes() if isinstance(r, ast.Return)]
-    okv = False
-    for r in rets:
-        t = norm(r.value)
-        if 'is_valid_hostname(self.host)' == t:
-            okv = True
-    ipr = [r for r in rets if 'is_global' in norm(r.value)]
-    ipn = {s.targets[0].id for s in g.own_nodes() if isinstance(s, ast.Assign) and isinstance(s.targets[0], ast.Name) and norm(s.value) == 'self.ip_address'} | {'self.ip_address'}
-    okip = len(ipr) == 1 and any(f'not ({i}.is_multicast or {i}.is_unspecified)' in norm(ipr[0].value) and
-                                 f'({i}.is_global or {i}.is_private)' in norm(ipr[0].value) for i in ipn)
-    ctx.check(okv and okip, 'C19.PUBLIC', ctx.key(g, None, 'validity'),
+    okip = okv = None
+    for pth in P.returns(g.node):
+        on_ip = P.truthy(pth, 'self.ip_address')
+        if on_ip is None:
+            okip = okv = False
+            break
+        if on_ip:
+            okip = (okip is not False) and q.bool_equiv(
+                pth.value, '(self.ip_address.is_global or self.ip_address.is_private) and not (self.ip_address.is_multicast or self.ip_address.is_unspecified)')
+        else:
+            okv = (okv is not False) and norm(pth.value) == 'is_valid_hostname(self.host)'
+    ctx.check(bool(okv) and bool(okip), 'C19.PUBLIC', ctx.key(g, None, 'validity'),
               'a named host is valid iff it is a syntactically valid hostname; an IP iff global-or-private and neither multicast nor unspecified',
               'is_valid does not test hostname syntax / address class as required', loc=ctx.loc(g, g.node))
     return 2
